@@ -14,8 +14,10 @@ func init() {
 			{PkgPath: diskPkg, Func: "verifC10MemDiscipline", Opt: big, Replay: "race"},
 			{PkgPath: diskPkg, Func: "verifC10FileDiscipline", Opt: big, Replay: "model"},
 			{PkgPath: diskPkg, Func: "verifC10MemConcurrent", Opt: big, Replay: "race"},
+			{PkgPath: diskPkg, Func: "verifC10MemSequences", Opt: big, Replay: "race"},
+			{PkgPath: diskPkg, Func: "verifC10FileConcurrent", Opt: big, Replay: "model"},
 		},
-		Covers: []string{"c10/mem", "c10/file", "c10/conc"},
+		Covers: []string{"c10/mem", "c10/file", "c10/conc", "c10/sequences", "c10/fileconc"},
 		Bounds: "lock-discipline VCs per method (Read, ReadTo, Write, Size) for all 64-bit addresses, all contents, block-sized and wrong-sized write buffers, n ≤ 2 blocks, every path including panics; file disk: n ≤ 3, all pairs of distinct in-range addresses. Additionally three concurrent operations (two writers, one reader) on a 2-block memory disk under every interleaving at synchronisation points (locks, atomics, Pool.Get/Put) with a happens-before race check on every byte and the register outcomes checked. Otherwise schedules are not enumerated: linearizability follows from the discharged VCs by the (trusted) meta-theorem lock discipline ⇒ race freedom ⇒ atomic critical sections.",
 		Assumptions: []string{
 			"meta-theorem (trusted): every shared access inside a critical section of an adequate mode, one critical section per operation and release on every exit imply data-race freedom and linearizability with the linearization point inside the section; the sequential effect of the section is the register operation (C09)",
